@@ -20,6 +20,19 @@ struct Exec {
 	int preemptions() const { int k = 0; for (auto& p : pts) if (p.running_first && p.choice != 0) ++k; return k; }
 };
 
+inline void parse_trace(const std::string& buf, Exec& x)
+{
+	size_t i = 0;
+	while (i < buf.size()) {
+		size_t e = buf.find('\n', i); if (e == std::string::npos) e = buf.size();
+		const char *l = buf.c_str() + i;
+		if (l[0] == 'P') { Pt p {}; int rf = 0; unsigned long long h = 0; int got = sscanf(l + 2, "%d %d %d %d %d %llx", &p.n, &rf, &p.thread, &p.choice, &p.tag, &h); p.running_first = rf; p.has_hash = got == 6; p.hash = h; x.pts.push_back(p); }
+		else if (l[0] == 'E') x.end.assign(l + 2, e - i - 2);
+		else if (l[0] == 'O') x.outcome.assign(l + 2, e - i - 2);
+		i = e + 1;
+	}
+}
+
 // body: runs in the child between vs_begin and vs_end; returns the outcome string ("" = fine, judged by parent too)
 inline Exec run_once(const std::function<std::string()>& body, const std::vector<int>& prefix, int timeout_s = 20)
 {
@@ -44,19 +57,37 @@ inline Exec run_once(const std::function<std::string()>& body, const std::vector
 	while ((n = read(ef[0], tmp, sizeof tmp)) > 0) { x.err.append(tmp, n); if (x.err.size() > 20000) x.err.erase(0, x.err.size() - 20000); }
 	close(ef[0]);
 	int status = 0; waitpid(pid, &status, 0);
-	size_t i = 0;
-	while (i < buf.size()) {
-		size_t e = buf.find('\n', i); if (e == std::string::npos) e = buf.size();
-		const char *l = buf.c_str() + i;
-		if (l[0] == 'P') { Pt p {}; int rf = 0; unsigned long long h = 0; int got = sscanf(l + 2, "%d %d %d %d %d %llx", &p.n, &rf, &p.thread, &p.choice, &p.tag, &h); p.running_first = rf; p.has_hash = got == 6; p.hash = h; x.pts.push_back(p); }
-		else if (l[0] == 'E') x.end.assign(l + 2, e - i - 2);
-		else if (l[0] == 'O') x.outcome.assign(l + 2, e - i - 2);
-		i = e + 1;
-	}
+	parse_trace(buf, x);
 	if (WIFSIGNALED(status)) x.end = WTERMSIG(status) == SIGALRM ? "HANG" : "CRASH:signal" + std::to_string(WTERMSIG(status));
 	else if (WIFEXITED(status) && WEXITSTATUS(status) != 0 && x.end == "OK") x.end = "CRASH:exit" + std::to_string(WEXITSTATUS(status));
 	else if (WIFEXITED(status) && WEXITSTATUS(status) != 0 && x.end.empty()) x.end = "CRASH:exit" + std::to_string(WEXITSTATUS(status));
 	return x;
+}
+
+// The same execution without a process per schedule: body runs in this process, the trace stays in memory.  Process
+// creation is by far the dearest step of a schedule (and is serialised system-wide on the machines this runs on), so the
+// explorer runs executions this way as long as none has failed.  An execution that ends in any other way than by
+// returning (deadlock, livelock, step limit, divergence, crash, sanitizer report, time-out, a thread left behind) takes
+// this process down; the driver (vp/check.py) then restarts the shard with forkfrom=<index of that execution>, and from
+// that index on every execution runs in a forked child as in run_once, where its ending is recorded and judged.
+inline Exec run_once_inproc(const std::function<std::string()>& body, const std::vector<int>& prefix, int timeout_s = 20)
+{
+	Exec x;
+	alarm(timeout_s);
+	vs_begin(prefix.data(), (int)prefix.size(), -2);
+	x.outcome = body();
+	vs_end();
+	alarm(0);
+	if (vs_leftover()) { fprintf(stderr, "INPROC: %d thread(s) of the execution did not finish\n", vs_leftover()); fflush(stderr); _exit(4); }
+	size_t len = 0; const char *t = vs_trace_buf(&len);
+	parse_trace(std::string(t, len), x);
+	return x;
+}
+inline bool same_trace(const Exec& a, const Exec& b)
+{
+	if (a.end != b.end || a.outcome != b.outcome || a.pts.size() != b.pts.size()) return false;
+	for (size_t i = 0; i < a.pts.size(); ++i) if (a.pts[i].n != b.pts[i].n || a.pts[i].thread != b.pts[i].thread || a.pts[i].choice != b.pts[i].choice || a.pts[i].tag != b.pts[i].tag || a.pts[i].running_first != b.pts[i].running_first) return false;
+	return true;
 }
 
 inline std::string choices_str(const std::vector<int>& c)
@@ -77,11 +108,29 @@ inline void explore(vh::Run& R, const std::string& cfg, const std::function<std:
 {
 	std::unordered_set<uint64_t> seen;	// (state hash, thread chosen) pairs already expanded — only with a complete state hash
 	long long branch = 0;
+	// inproc=1: executions with index < forkfrom run in this process (run_once_inproc), the others in a forked child.
+	// The index is the position in the depth-first order, which is a function of the harness arguments and the shard only.
+	const bool inproc = R.args.num("inproc", 0) != 0;
+	const long long forkfrom = R.args.has("forkfrom") ? R.args.num("forkfrom", 0) : (inproc ? (1LL << 62) : 0);
+	static bool warmed = false;
+	if (inproc && forkfrom > S.execs && !warmed) {
+		// the first in-process execution initialises whatever the code initialises lazily; run the default schedule once
+		// in a child (cold) and once here (twice: first use, then warm): all three traces must agree, otherwise executions
+		// in the two modes are not interchangeable and every execution is forked as before
+		warmed = true;
+		R.begin_case(cfg + ";", "", S.execs); --R.evaluations;
+		Exec cold = run_once(body, std::vector<int>());
+		if (cold.end == "OK") {
+			Exec w1 = run_once_inproc(body, std::vector<int>()), w2 = run_once_inproc(body, std::vector<int>());
+			if (!same_trace(cold, w1) || !same_trace(cold, w2)) { fprintf(stderr, "INPROC: default schedule differs between a forked and an in-process execution\n"); fflush(stderr); _exit(5); }
+		}
+		else { fflush(stderr); _exit(6); }	// the default schedule fails: fork mode from the start
+	}
 	std::function<void(const std::vector<int>&, int)> rec = [&](const std::vector<int>& prefix, int depth) {
 		if (R.out_of_time() || (max_execs && S.execs >= max_execs)) { S.capped = true; return; }
 		const std::string id = cfg + ";" + choices_str(prefix);
-		R.begin_case(id);
-		Exec x = run_once(body, prefix);
+		R.begin_case(id, "", S.execs);
+		Exec x = (inproc && S.execs < forkfrom) ? run_once_inproc(body, prefix) : run_once(body, prefix);
 		++S.execs; S.maxpts = std::max<long long>(S.maxpts, x.pts.size());
 		if (x.preemptions() > 0) ++R.nontrivial;
 		++R.transitions;
